@@ -252,6 +252,47 @@ pub fn gen_c19_canonical(rng: &mut Rng) -> Case {
     Case { family: "c19-canonical".into(), world: w, invs: vec![inv] }
 }
 
+/// One file named under several spellings that resolve to *different* configurations
+/// (`sub/../x.lua` is looked up from `sub/`, `x.lua` from the working directory).  Which spelling
+/// should win is outside the model (§5.1), and C19 does not ask: whatever the program does, it
+/// must do under every schedule and thread count.  The file walk is sequential, so on a correct
+/// tree the first spelling on the command line decides, always.
+pub fn gen_c19_spellings(rng: &mut Rng) -> Case {
+    let mut w = base_world();
+    w.files.insert(wpath("", "x.lua"), PROBE.as_bytes().to_vec());
+    let o = random_option_set(rng, 3);
+    w.files.insert(wpath("sub", "stylua.toml"), toml_text(&o).into_bytes());
+    w.files.insert(wpath("sub", "keep.lua"), b"local keep = 1\n".to_vec());
+    if rng.chance(40) {
+        let o = random_option_set(rng, 2);
+        w.files.insert(wpath("lib", ".stylua.toml"), toml_text(&o).into_bytes());
+        w.files.insert(wpath("lib", "keep.lua"), b"local keep = 1\n".to_vec());
+    }
+    let spellings: &[&str] = &["x.lua", "./x.lua", "sub/../x.lua", "lib/../x.lua", "sub/../sub/../x.lua", "./sub/../x.lua"];
+    let mut args: Vec<String> = Vec::new();
+    let n = rng.range(2, 4);
+    while (args.len() as u64) < n {
+        let s: &str = rng.pick(spellings);
+        if !args.iter().any(|a| a == s) {
+            args.push(s.to_string());
+        }
+    }
+    if rng.chance(40) {
+        w.files.insert(wpath("", "ugly.lua"), rng.pick(UNFORMATTED).as_bytes().to_vec());
+        args.push("ugly.lua".into());
+    }
+    if rng.chance(25) {
+        args.push("missing.lua".into());
+    }
+    rng.shuffle(&mut args);
+    let mut opts = Opts { check: rng.chance(25), num_threads: random_threads(rng), files: args, ..Default::default() };
+    if opts.check {
+        opts.output_format = rng.pick(&[None, Some("unified"), Some("json"), Some("summary")]).map(|s| s.to_string());
+    }
+    let inv = Invocation { opts, stdin: None, faults: vec![], sched: random_sched(rng), dir_key: rng.next(), pre_edits: vec![] };
+    Case { family: "c19-spellings".into(), world: w, invs: vec![inv] }
+}
+
 // ---------------------------------------------------------------------------------------------
 // file classes
 
